@@ -25,7 +25,7 @@ struct G
   std::vector<std::unique_ptr<Map>> oldMaps;
   std::unique_ptr<Map> map;
   std::unique_ptr<RayCasting<S, DIM>> ray;
-  IV origin;
+  IV origin, lastEnd;
 
   // a coordinate is "exact" when it is within 16 ulps (of the largest coordinate of the grid) of an integer number of units
   long long units(double x, bool & ok) const
@@ -102,9 +102,15 @@ struct G
     using Cells = VectorOfEigenVector<CI>;
     Cells cells;
     bool originSet = how != 1 || origin.empty();
-    if (how == 0) {                               // cast(origin, end)
+    if (how == 4 && !lastEnd.empty()) {           // a polyline: the caster's own previous end point handed back as the new origin
+      cells = ray->cast(ray->getEndPoint(), pt(e));
+      origin = lastEnd; originSet = true;
+    } else if (how == 5 && !origin.empty()) {     // the caster's own origin handed back
+      cells = ray->cast(ray->getOriginPoint(), pt(e));
+      originSet = true;
+    } else if (how == 0 || how >= 4) {            // cast(origin, end)
       cells = ray->cast(pt(o), pt(e));
-      origin = o;
+      origin = o; originSet = true;
     } else if (how == 1 && !origin.empty()) {     // cast(end) from the origin set earlier
       cells = ray->cast(pt(e));
     } else if (how == 2) {                        // setOrigin + setEnd + next() loop
@@ -118,6 +124,7 @@ struct G
       ray->setOriginPoint(pt(o)); origin = o;
       cells = ray->cast(pt(e));
     }
+    lastEnd = e;
     if (originSet) {out.put(vh::Ev("setOrigin").vec("p", origin).vec("idx", iv(ray->getOriginPointIndexes())));}
     out.put(vh::Ev("setEnd").vec("p", e).vec("idx", iv(ray->getEndPointIndexes())).vec("first", cells.empty() ? IV(DIM, -1) : iv(cells[0])));
     for (size_t i = 1; i < cells.size(); ++i) {out.put(vh::Ev("step").vec("cell", iv(cells[i])));}
@@ -226,7 +233,7 @@ static void randomExec(vh::Rng & r, const std::string & mode, vh::Out & out)
     if (shape == 0) {e = o;}                                                    // coincident
     if (shape == 1) {e[0] = o[0];}                                              // axis-aligned
     if (shape == 2) {long long d = e[0] - o[0]; for (size_t a = 1; a < DIM; ++a) {e[a] = std::min(hi[a], std::max(lo[a], o[a] + (r.coin() ? d : -d)));}}   // diagonal
-    g.cast((int)r.range(0, 3), o, e, out);
+    g.cast((int)r.range(0, 5), o, e, out);
   }
 }
 
@@ -313,6 +320,84 @@ static void genericIndex(vh::Rng & r, vh::Out & out)
     .b("tabSame", tabSame).vec("res", IV{inUnits(half), inUnits(spacing), inUnits(coverLo), inUnits(coverHi)}));
 }
 
+// Generic (non-lattice) rays on large grids with decimal resolutions, single and double precision: short rays anywhere in the
+// grid - in particular in cells of high index, far from the grid's first cell - with end points at least 5 % of a cell away from
+// the cell borders.  The cast must start in the origin's cell, end in the end point's cell, step through face-adjacent cells
+// without detour, and every cell must be met by the segment (boxes inflated by 0.5 % of a cell).  Reference: the nominal grid in
+// double, anchored at the first cell centre the mapping reports.
+template<class S, size_t DIM>
+static void genericRay(vh::Rng & r, vh::Out & out)
+{
+  using Map = GridIndexMapping<S, DIM>;
+  using P = typename Map::PointType;
+  using CI = typename Map::CellIndexes;
+  auto uni = [&](double a, double b) {return a + (b - a) * ((double)r.range(0, 1000000000) / 1e9);};
+  const double res = r.pick(std::vector<double>{0.01, 0.02, 0.05, 0.1, 0.25, 0.3, 1.0});
+  const double maxCells = DIM == 2 ? 2000 : 200;
+  P lo, hi;
+  for (size_t a = 0; a < DIM; ++a) {
+    double len = res * uni(0.3, 1.0) * maxCells, l = -uni(0.2, 0.8) * len;
+    lo[a] = (S)l; hi[a] = (S)(l + len);
+  }
+  Map map(Interval<S, DIM>(lo, hi), (S)res);
+  RayCasting<S, DIM> ray(&map);
+  const CI nc = map.getNumberOfCellsAlongAxes();
+  double c0[DIM]; for (size_t a = 0; a < DIM; ++a) {c0[a] = (double)map.getCellCentersPositionAlong(a)[0];}
+  const double rs = (double)(S)res;
+  bool startOK = true, endOK = true, adjacent = true, meets = true, minimal = true;
+  int ncasts = 0;
+  for (int t = 0; t < 12; ++t) {
+    long long ko[DIM], ke[DIM]; P o, e;
+    const int region = (int)r.range(0, 2);                              // near the first cells, near the last cells, anywhere
+    for (size_t a = 0; a < DIM; ++a) {
+      const long long n = (long long)nc[a];
+      if (n < 16) {ko[a] = r.range(0, n - 1);} else {ko[a] = region == 0 ? r.range(1, 12) : region == 1 ? n - 2 - r.range(0, 12) : r.range(1, n - 2);}
+      ke[a] = std::max(0LL, std::min(n - 1, ko[a] + (r.coin(1, 4) ? 0 : r.range(-6, 6))));
+      o[a] = (S)(c0[a] + ((double)ko[a] + uni(-0.45, 0.45)) * rs);
+      e[a] = (S)(c0[a] + ((double)ke[a] + uni(-0.45, 0.45)) * rs);
+    }
+    // the cells the (rounded) points really are in; skip rays whose ends came within 2 % of a border after rounding
+    bool clear = true;
+    for (size_t a = 0; a < DIM; ++a) {
+      for (const double v : {(double)o[a], (double)e[a]}) {double f = (v - c0[a]) / rs + 0.5; f -= std::floor(f); if (f < 0.02 || f > 0.98) {clear = false;}}
+      ko[a] = (long long)std::floor(((double)o[a] - c0[a]) / rs + 0.5); ke[a] = (long long)std::floor(((double)e[a] - c0[a]) / rs + 0.5);
+    }
+    if (!clear) {continue;}
+    ++ncasts;
+    VectorOfEigenVector<CI> cells;
+    const int how = (int)r.range(0, 2);
+    if (how == 0) {cells = ray.cast(o, e);} else if (how == 1) {ray.setOriginPoint(o); cells = ray.cast(e);}
+    else {RayCasting<S, DIM> fresh(&map); cells = fresh.cast(o, e);}
+    if (cells.empty()) {startOK = false; continue;}
+    long long manhattan = 0;
+    for (size_t a = 0; a < DIM; ++a) {
+      if ((long long)cells.front()[a] != ko[a]) {startOK = false;}
+      if ((long long)cells.back()[a] != ke[a]) {endOK = false;}
+      manhattan += std::llabs(ke[a] - ko[a]);
+    }
+    if ((long long)cells.size() != manhattan + 1) {minimal = false;}
+    for (size_t i = 0; i < cells.size(); ++i) {
+      if (i > 0) {
+        long long d = 0; for (size_t a = 0; a < DIM; ++a) {d += std::llabs((long long)cells[i][a] - (long long)cells[i - 1][a]);}
+        if (d != 1) {adjacent = false;}
+      }
+      // slab test of the segment against the cell's box inflated by 0.5 % of a cell
+      double t0 = 0, t1 = 1; bool hit = true;
+      for (size_t a = 0; a < DIM; ++a) {
+        const double bl = c0[a] + ((double)cells[i][a] - 0.505) * rs, bh = c0[a] + ((double)cells[i][a] + 0.505) * rs;
+        const double p0 = (double)o[a], d = (double)e[a] - p0;
+        if (d == 0) {if (p0 < bl || p0 > bh) {hit = false;}} else {
+          double ta = (bl - p0) / d, tb = (bh - p0) / d; if (ta > tb) {std::swap(ta, tb);}
+          t0 = std::max(t0, ta); t1 = std::min(t1, tb);
+        }
+      }
+      if (!hit || t0 > t1) {meets = false;}
+    }
+  }
+  out.put(vh::Ev("genericray").i("dim", DIM).i("float", sizeof(S) == 4).i("casts", ncasts).b("startOK", startOK).b("endOK", endOK).b("adjacent", adjacent)
+    .b("meets", meets).b("minimal", minimal));
+}
+
 template<class S, size_t DIM>
 static void exhaustive(long long R, long long lo, long long hi, vh::Out & out)
 {
@@ -338,6 +423,22 @@ int main(int argc, char ** argv)
     vh::Rng r(std::strtoull(argv[2], nullptr, 10));
     int nexec = std::atoi(argv[3]);
     vh::Out out(argv[5]);
+    if (std::string(argv[4]) == "genericray") {
+      for (int i = 0; i < nexec; ++i) {
+        if (i % 40 == 0) {
+          out.put(vh::Ev("Reset").i("dim", 2).i("R", 2).vec("lo", IV{0, 0}).vec("hi", IV{2, 2}).b("nd", false).vec("ncells", IV{2, 2}).vec("c0", IV{0, 0})
+            .b("exact", true).b("sym", false).i("float", 0));
+        }
+        switch (i % 4) {
+          case 0: genericRay<float, 2>(r, out); break;
+          case 1: genericRay<double, 2>(r, out); break;
+          case 2: genericRay<float, 3>(r, out); break;
+          default: genericRay<double, 3>(r, out);
+        }
+      }
+      std::printf("%lld\n", out.lines);
+      return 0;
+    }
     if (std::string(argv[4]) == "generic") {
       for (int i = 0; i < nexec; ++i) {
         if (i % 40 == 0) {
